@@ -592,25 +592,31 @@ pub struct Batch {
     pub commits: Seq<usize>,
 }
 
-pub open spec fn cy_act3(act: ActMap, b: Batch) -> ActMap {
-    ph_submits_act(ph_drops(ph_starts(act, b.starts), b.drops), b.submits)
+// C04: cancel() (a DropCollect) suppresses its trace when the collector is cancelable and
+// "changes nothing about what is delivered" in the default configuration
+pub open spec fn cy_act2(act: ActMap, b: Batch, cancelable: bool) -> ActMap {
+    if cancelable { ph_drops(ph_starts(act, b.starts), b.drops) } else { ph_starts(act, b.starts) }
+}
+
+pub open spec fn cy_act3(act: ActMap, b: Batch, cancelable: bool) -> ActMap {
+    ph_submits_act(cy_act2(act, b, cancelable), b.submits)
 }
 
 pub open spec fn cy_stale(act: ActMap, b: Batch, cancelable: bool) -> Seq<CollV> {
-    ph_submits_stale(ph_drops(ph_starts(act, b.starts), b.drops), Seq::empty(), b.submits, cancelable)
+    ph_submits_stale(cy_act2(act, b, cancelable), Seq::empty(), b.submits, cancelable)
 }
 
-pub open spec fn cy_act4(act: ActMap, b: Batch) -> ActMap {
-    ph_commits_act(cy_act3(act, b), b.commits)
+pub open spec fn cy_act4(act: ActMap, b: Batch, cancelable: bool) -> ActMap {
+    ph_commits_act(cy_act3(act, b, cancelable), b.commits)
 }
 
 pub open spec fn cy_final_act(act: ActMap, b: Batch, cancelable: bool, ks: Seq<usize>, anchor: Anchor) -> ActMap {
-    if cancelable { cy_act4(act, b) } else { ph_sweep_act(cy_act4(act, b), ks, anchor) }
+    if cancelable { cy_act4(act, b, cancelable) } else { ph_sweep_act(cy_act4(act, b, cancelable), ks, anchor) }
 }
 
 pub open spec fn cy_out(act: ActMap, b: Batch, cancelable: bool, ks: Seq<usize>, anchor: Anchor) -> Seq<RecV> {
-    ph_commits_out(cy_act3(act, b), b.commits, anchor)
-        + (if cancelable { Seq::empty() } else { ph_sweep_out(cy_act4(act, b), ks, anchor) })
+    ph_commits_out(cy_act3(act, b, cancelable), b.commits, anchor)
+        + (if cancelable { Seq::empty() } else { ph_sweep_out(cy_act4(act, b, cancelable), ks, anchor) })
         + ph_stale_out(cy_stale(act, b, cancelable), anchor)
 }
 
